@@ -82,6 +82,8 @@ def config(rng, name, criteria=None):
             p["strategy"] = rng.choice(["mean", "median", "most_frequent", "constant"])
             if p["strategy"] == "constant":
                 p["fill_value"] = rng.choice([0.0, -1.0, 7.5])
+            elif rng.random() < 0.3:
+                p["fill_value"] = rng.choice([0.0, -1.0, 7.5])     # only used by the "constant" strategy
         if name == "KNNImputer":
             p["n_neighbors"] = rng.choice([1, 2, 3, 5])
             p["weights"] = rng.choice(["uniform", "distance"])
